@@ -175,7 +175,7 @@ def _check_outputs_initialised(ctx):
             vals = list(e.args)
         for v in vals:
             handed.append((no_uids(v), set(cfg.conditions(e.stmt)), e.node))
-    ctx.floor("C09b-result-paths", len(handed), 2)
+    ctx.floor("C09b-result-paths", len(handed), 1)
     inits = []
     for n in ast.walk(g.node):
         if isinstance(n, ast.Call) and isinstance(n.func, ast.Attribute) \
@@ -388,38 +388,9 @@ def _check_writers(ctx, reach_all):
     f = prog.func("mokapot.confidence.assign_confidence")
     cfg = CFG(f.node)
     du = DefUse(prog, f)
-    creates = [n for n in ast.walk(f.node) if isinstance(n, ast.Assign)
-               and isinstance(n.targets[0], ast.Name)
-               and isinstance(n.value, ast.Call)
-               and ast.unparse(n.value.func).endswith("from_suffix")]
-    ctx.floor("C09b-result-writers", len(creates), 2)
-    for cr in creates:
-        name = cr.targets[0].id
-        inits = []
-        for n in ast.walk(f.node):
-            if isinstance(n, ast.Call) and isinstance(n.func, ast.Attribute) \
-                    and n.func.attr == "initialize" and isinstance(
-                        n.func.value, ast.Name) and n.func.value.id == name:
-                ds = du.defs_of(n.func.value)
-                if any(d.node is cr for d in ds):
-                    inits.append(n)
-        ok = False
-        why = "no initialize() call on this writer"
-        for i in inits:
-            gs = [g for g in cfg.guards(i) if g not in cfg.guards(cr)]
-            flagged = [g for g in gs if not (
-                isinstance(g[0], ast.UnaryOp) and isinstance(g[0].op, ast.Not)
-                and isinstance(g[0].operand, ast.Name)
-                and g[0].operand.id == "append_to_output_file" and g[1])]
-            if not flagged:
-                ok = True
-            else:
-                why = ("initialize() is guarded by "
-                       f"{[ast.unparse(g[0]) for g in flagged]}")
-        ctx.check(ok, "C09b-result-file-truncated", f,
-                  f"result writer for {ast.unparse(cr.value.args[0])[:40]} "
-                  "is initialised unless append_to_output_file",
-                  why, node=cr)
+    # (that every result path is truncated unless the append flag is set
+    # is judged on events in _check_outputs_initialised:
+    # C09b-result-file-initialised)
     # the append flag itself: default False, only raised after a collection
     # without prefix (documented multi-collection appending)
     d = f.defaults().get("append_to_output_file")
@@ -488,28 +459,54 @@ def _check_level_cleanup(ctx):
     g = prog.func("mokapot.confidence.assign_confidence")
     du2 = DefUse(prog, g)
     T2 = Terms(du2)
-    lc = [n for n in ast.walk(g.node) if isinstance(n, ast.Call)
-          and ast.unparse(n.func) == "LinearConfidence"]
-    ctx.require(len(lc) == 1, f"{g.qual}: LinearConfidence call not found")
-    kws = {k.arg: k.value for k in lc[0].keywords}
-    lpaths = kws.get("level_paths")
-    ctx.require(isinstance(lpaths, ast.ListComp),
-                f"{g.qual}: level_paths is not a list comprehension")
-    over = T2.of(lpaths.generators[0].iter)
-    handles = [n for n in ast.walk(g.node) if isinstance(n, ast.DictComp)
-               and "from_suffix" in ast.unparse(n.value)]
-    ctx.require(len(handles) == 1, f"{g.qual}: level handles not found")
-    hover = T2.of(handles[0].generators[0].iter)
+    from ..proto import Calls
+    from ..tutil import bound_args, map_term
+    lcs = Calls(prog, g, du=du2, T=T2).calls(
+        "mokapot.confidence.LinearConfidence")
+    ctx.require(len(lcs) == 1, f"{g.qual}: LinearConfidence call not found")
+    lp_t = (bound_args(prog, lcs[0][0]) or {}).get("level_paths")
+    ctx.require(lp_t is not None and lp_t[0] == "comp" and len(lp_t[3]) == 1
+                and not lp_t[3][0][2],
+                f"{g.qual}: level_paths is not one path per level")
+    over = lp_t[3][0][1]
+    handed_path = lp_t[2]
+    # the writers of the level files: {level: from_suffix(path(level), ...)}
+    created = []
+    for d in du2.defs:
+        if d.kind != "assign" or d.value is None:
+            continue
+        t = T2.of_def(d)
+        if t[0] == "comp" and t[1] == "dict" and len(t[3]) == 1 and \
+                t[2][0] == "tuple" and len(t[2][1]) == 2:
+            v = t[2][1][1]
+            if v[0] == "call" and v[1].endswith(
+                    "TabularDataWriter.from_suffix") and v[2]:
+                created.append((v[2][0], t[3][0][1], d))
+    ctx.require(len(created) == 1, f"{g.qual}: level handles not found")
+    made_path, hover, hd = created[0]
     alts = list(over[1]) if over[0] == "phi" else [over]
-    ok = all(a == hover or (a[0] == "list" and a[1] and a[1][0] == (
-        "star", hover)) for a in alts)
-    same_path = ast.unparse(lpaths.elt) == ast.unparse(
-        handles[0].value.args[0])
-    ctx.check(ok and same_path, "C09c-created-subset-of-removed", g,
+
+    def covers(a):
+        if a == hover:
+            return True
+        if a[0] == "list" and a[1] and a[1][0] == ("star", hover):
+            return True
+        if a[0] == "bin" and a[1] == "+" and a[2] == hover:
+            return True
+        return False
+    ok = all(covers(a) for a in alts)
+    # the same path expression, as a function of the level
+    hp = map_term(handed_path, lambda x: ("LEVEL",) if x == ("elem", over)
+                  else x)
+    mp = map_term(made_path, lambda x: ("LEVEL",) if x == ("elem", hover)
+                  else x)
+    ctx.check(ok and hp == mp, "C09c-created-subset-of-removed", g,
               "every level file created is handed to _assign_confidence "
               "(which removes it)",
-              f"level files are created for {show(hover, 80)} but handed "
-              f"over for {show(over, 120)}", node=lc[0])
+              f"level files are created as {show(made_path, 60)} for "
+              f"{show(hover, 60)} but handed over as "
+              f"{show(handed_path, 60)} for {show(over, 100)}",
+              node=lcs[0][1])
 
 
 def _check_input_replacement(ctx, reach_all):
